@@ -96,3 +96,20 @@ pub fn ctl_order_swap(v: &mut Vec<FnArg>) {
 pub fn ctl_order_ok(v: &[FnArg]) -> Vec<u8> {
     v.iter().filter_map(|a| if a.0 > 0 { Some(a.0) } else { None }).collect()
 }
+
+// ---- control for the debug-format position rule (token types are recognised by path) ----
+pub mod syn {
+    #[derive(Debug)]
+    pub struct Ident(pub u8);
+    impl std::fmt::Display for Ident {
+        fn fmt(&self, f: &mut std::fmt::Formatter<'_>) -> std::fmt::Result {
+            write!(f, "{}", self.0)
+        }
+    }
+}
+pub fn ctl_debug_format(i: &syn::Ident) -> String {
+    format!("{:?}", i)
+}
+pub fn ctl_display_format_ok(i: &syn::Ident) -> String {
+    format!("{}", i)
+}
